@@ -536,6 +536,9 @@ void run(const Json& plan)
         other_thread.join();
         for (int fd : other.fds) ::close(fd);
     }
+    // Client::shutdown() closes the pool's descriptors without waiting for the reactor threads; a thread still inside a
+    // handler would use a closed descriptor (outside C15; see DESIGN 9). The application waits until the client is quiet.
+    sim::quiesce(2LL * 1000000000LL);
     simk::set_stream_close_observer(nullptr);
     client.shutdown();
     simk::ActorSock::unlisten(srv.port);
